@@ -7,26 +7,46 @@ Arguments Z.mul : simpl never.
 
 Lemma MAX_INC_val : MAX_INC = 10240. Proof. reflexivity. Qed.
 
-Lemma field_size_pos f : LEN_W <= field_size f.
+(* The two shapes the model covers: fields with a (positive-width) length prefix, any number of
+   them; or prefix-less bytes, which only make sense as the single trailing field. *)
+Definition shape_ok (lw : Z) (v : value) : Prop :=
+  0 < lw \/ (lw = 0 /\ (length v <= 1)%nat).
+
+Lemma shape_ok_nonneg lw v : shape_ok lw v -> 0 <= lw.
+Proof. intros [H|[H _]]; lia. Qed.
+
+Lemma shape_ok_set_nth lw i g v : shape_ok lw v -> shape_ok lw (set_nth i g v).
+Proof. unfold shape_ok. rewrite set_nth_length. auto. Qed.
+
+Lemma shape_ok_list lw v : 0 < lw -> shape_ok lw v.
+Proof. left; assumption. Qed.
+
+Lemma shape_ok_bytes f : shape_ok 0 [f].
+Proof. right; split; [reflexivity|apply le_n]. Qed.
+
+Lemma field_size_pos lw f : 0 <= lw -> lw <= field_size lw f.
 Proof. unfold field_size. pose proof (zlen_nonneg f). lia. Qed.
 
-Lemma value_size_nonneg v : DISC_W <= value_size v.
+Lemma fields_size_nonneg lw v : 0 <= lw -> 0 <= zsum (map (field_size lw) v).
 Proof.
-  unfold value_size. assert (0 <= zsum (map field_size v)); [|lia].
-  induction v as [|f v IH]; cbn [map zsum]; [lia|]. pose proof (field_size_pos f). unfold LEN_W in *. lia.
+  intros Hlw. induction v as [|f v IH]; cbn [map zsum]; [lia|]. pose proof (field_size_pos lw f Hlw). lia.
 Qed.
 
-(* every field pointer lies in [base, base + total size of the fields) and they are monotone *)
-Lemma check_pointers_from_ok rend cursor base v :
-  cursor <= base -> 0 <= base ->
-  (v = [] \/ base + zsum (map field_size v) <= rend) ->
-  check_pointers_from rend cursor (field_offsets_from base v) = true.
+Lemma value_size_nonneg lw v : 0 <= lw -> DISC_W <= value_size lw v.
+Proof. intros Hlw. unfold value_size. pose proof (fields_size_nonneg lw v Hlw). lia. Qed.
+
+(* prefixed fields: every field pointer lies in [base, base + total size of the fields) and they
+   are monotone *)
+Lemma check_pointers_from_ok lw rend cursor base v :
+  0 < lw -> cursor <= base -> 0 <= base ->
+  (v = [] \/ base + zsum (map (field_size lw) v) <= rend) ->
+  check_pointers_from rend cursor (field_offsets_from lw base v) = true.
 Proof.
-  revert cursor base. induction v as [|f v IH]; intros cursor base Hc Hb Hsz; cbn [field_offsets_from check_pointers_from]; auto.
+  intros Hlw. revert cursor base. induction v as [|f v IH]; intros cursor base Hc Hb Hsz; cbn [field_offsets_from check_pointers_from]; auto.
   destruct Hsz as [Hsz|Hsz]; [discriminate|]. cbn [map zsum] in Hsz.
-  pose proof (field_size_pos f) as Hf. unfold LEN_W in Hf.
-  assert (0 <= zsum (map field_size v)) as Hnn.
-  { clear. induction v as [|g v IH]; cbn [map zsum]; [lia|]. pose proof (field_size_pos g). unfold LEN_W in *. lia. }
+  assert (0 <= lw) as Hlw0 by lia.
+  pose proof (field_size_pos lw f Hlw0) as Hf.
+  pose proof (fields_size_nonneg lw v Hlw0) as Hnn.
   rewrite !andb_true_iff. repeat split.
   - apply Z.leb_le; lia.
   - apply Z.leb_le; lia.
@@ -34,29 +54,39 @@ Proof.
   - apply IH; lia.
 Qed.
 
-Lemma check_pointers_ok rend v : value_size v <= rend -> check_pointers rend v = true.
+(* Either shape: the pointers are fine as long as the value fits the range and the range reaches
+   past the discriminant (the prefix-less field's pointer sits at DISC_W even when the body is
+   empty, i.e. AT the end of the data). *)
+Lemma check_pointers_ok lw rend v :
+  shape_ok lw v -> value_size lw v <= rend -> DISC_W < rend -> check_pointers lw rend v = true.
 Proof.
-  intros H. unfold check_pointers, field_offsets. apply check_pointers_from_ok; unfold DISC_W; try lia.
-  unfold value_size, DISC_W in H. destruct v; [left; reflexivity|right; lia].
+  intros [Hlw|[-> Hlen]] H Hr; unfold check_pointers, field_offsets.
+  - apply check_pointers_from_ok; unfold DISC_W; try lia.
+    unfold value_size, DISC_W in H. destruct v; [left; reflexivity|right; lia].
+  - destruct v as [|f [|g v]]; cbn [length] in Hlen; [reflexivity| |lia].
+    cbn [field_offsets_from check_pointers_from]. unfold DISC_W in *.
+    rewrite !andb_true_iff. repeat split; try reflexivity. apply Z.ltb_lt; lia.
 Qed.
 
 (* ---- value updates ---- *)
-Lemma zsum_map_set_nth (i : nat) (f g : list Z) (v : value) :
+Lemma zsum_map_set_nth lw (i : nat) (f g : list Z) (v : value) :
   nth_error v i = Some f ->
-  zsum (map field_size (set_nth i g v)) = zsum (map field_size v) - field_size f + field_size g.
+  zsum (map (field_size lw) (set_nth i g v)) =
+  zsum (map (field_size lw) v) - field_size lw f + field_size lw g.
 Proof.
   revert i. induction v as [|h v IH]; intros [|i] H; cbn [nth_error] in H; try discriminate.
   - injection H as ->. cbn [set_nth map zsum]. lia.
   - cbn [set_nth map zsum]. rewrite (IH _ H). lia.
 Qed.
 
-Lemma value_size_set_nth i f g v :
-  nth_error v i = Some f -> value_size (set_nth i g v) = value_size v - zlen f + zlen g.
-Proof. intros H. unfold value_size. rewrite (zsum_map_set_nth _ _ _ _ H). unfold field_size. lia. Qed.
+Lemma value_size_set_nth lw i f g v :
+  nth_error v i = Some f -> value_size lw (set_nth i g v) = value_size lw v - zlen f + zlen g.
+Proof. intros H. unfold value_size. rewrite (zsum_map_set_nth lw _ _ _ _ H). unfold field_size. lia. Qed.
 
 (* ---- the invariant ---- *)
 Record Inv (orig : Z) (s : st) : Prop := mkInv {
-  inv_len : h_dlen (s_hdr s) = value_size (s_val s);
+  inv_shape : shape_ok (s_lw s) (s_val s);
+  inv_len : h_dlen (s_hdr s) = value_size (s_lw s) (s_val s);
   inv_delta : h_dlen (s_hdr s) - h_delta (s_hdr s) = orig;
   inv_cap : h_delta (s_hdr s) <= MAX_INC;
   inv_excl : match s_excl s with
@@ -69,9 +99,11 @@ Record Inv (orig : Z) (s : st) : Prop := mkInv {
 
 Definition size_ok (orig : Z) : Prop := 0 <= orig /\ orig + MAX_INC <= I32_MAX.
 
-Lemma init_inv v w : Inv (value_size v) (init_st v w).
+Lemma init_inv lw v w : shape_ok lw v -> Inv (value_size lw v) (init_st lw v w).
 Proof.
-  constructor; cbn [init_st s_hdr s_val s_excl s_nsh h_dlen h_delta h_mut h_shr].
+  intros Hsh.
+  constructor; cbn [init_st s_hdr s_val s_excl s_nsh s_lw h_dlen h_delta h_mut h_shr].
+  - assumption.
   - reflexivity.
   - lia.
   - rewrite MAX_INC_val; lia.
@@ -81,10 +113,23 @@ Proof.
 Qed.
 
 Lemma range_is_alloc orig s : Inv orig s -> data_mut_range_end (s_hdr s) = orig + MAX_INC.
-Proof. intros [? Hd ? ? ? ?]. unfold data_mut_range_end. lia. Qed.
+Proof. intros [? ? Hd ? ? ? ?]. unfold data_mut_range_end. lia. Qed.
 
-Lemma inv_fits orig s : Inv orig s -> value_size (s_val s) <= orig + MAX_INC.
-Proof. intros [Hl Hd Hc _ _ _]. lia. Qed.
+Lemma inv_fits orig s : Inv orig s -> value_size (s_lw s) (s_val s) <= orig + MAX_INC.
+Proof. intros [_ Hl Hd Hc _ _ _]. lia. Qed.
+
+Lemma inv_lw_nonneg orig s : Inv orig s -> 0 <= s_lw s.
+Proof. intros [Hsh _ _ _ _ _ _]. exact (shape_ok_nonneg _ _ Hsh). Qed.
+
+(* the pointer check of a live exclusive wrapper (range = the allocation) always passes *)
+Lemma inv_pointers_ok orig s :
+  size_ok orig -> Inv orig s -> check_pointers (s_lw s) (orig + MAX_INC) (s_val s) = true.
+Proof.
+  intros [Ho _] HI. apply check_pointers_ok.
+  - apply (inv_shape _ _ HI).
+  - apply (inv_fits _ _ HI).
+  - rewrite MAX_INC_val. unfold DISC_W. lia.
+Qed.
 
 Ltac break_if :=
   match goal with
@@ -93,10 +138,10 @@ Ltac break_if :=
   end.
 
 Lemma resize_ok orig s n :
-  size_ok orig -> Inv orig s -> 0 <= n -> n <> value_size (s_val s) -> n <= orig + MAX_INC ->
+  size_ok orig -> Inv orig s -> 0 <= n -> n <> value_size (s_lw s) (s_val s) -> n <= orig + MAX_INC ->
   resize_unchecked (s_hdr s) n = Ok (set_len (s_hdr s) n (h_delta (s_hdr s) + (n - h_dlen (s_hdr s)))).
 Proof.
-  intros [Ho Hm] [Hl Hd Hc _ _ _] Hn Hne Hle. unfold resize_unchecked.
+  intros [Ho Hm] [_ Hl Hd Hc _ _ _] Hn Hne Hle. unfold resize_unchecked.
   destruct (n >? I32_MAX) eqn:E1; [zb; lia|].
   destruct (n =? h_dlen (s_hdr s)) eqn:E2; [zb; lia|].
   destruct (_ >? MAX_INC) eqn:E3; [zb; lia|]. reflexivity.
@@ -106,7 +151,7 @@ Lemma resize_too_big orig s n :
   size_ok orig -> Inv orig s -> orig + MAX_INC < n ->
   resize_unchecked (s_hdr s) n = Err PE_INVALID_ACCOUNT_DATA_REALLOC.
 Proof.
-  intros [Ho Hm] [Hl Hd Hc _ _ _] Hn. unfold resize_unchecked.
+  intros [Ho Hm] [_ Hl Hd Hc _ _ _] Hn. unfold resize_unchecked.
   destruct (n >? I32_MAX) eqn:E1; [reflexivity|].
   destruct (n =? h_dlen (s_hdr s)) eqn:E2; [zb; lia|].
   destruct (_ >? MAX_INC) eqn:E3; [reflexivity|]. zb. lia.
@@ -117,7 +162,7 @@ Lemma step_inv orig s o :
   size_ok orig -> Inv orig s ->
   Inv orig (fst (step s o)) /\ snd (step s o) <> [2].
 Proof.
-  intros Hso HI. pose proof HI as [Hl Hd Hc He Hs Hes].
+  intros Hso HI. pose proof HI as [Hsh Hl Hd Hc He Hs Hes]. pose proof (shape_ok_nonneg _ _ Hsh) as Hlw.
   destruct o; cbn [step].
   - (* BorrowMut *)
     repeat break_if; cbn [fst snd]; try (split; [assumption|discriminate]).
@@ -129,7 +174,7 @@ Proof.
   - (* RelMut *)
     destruct (s_excl s) as [r|] eqn:Ex; cbn [fst snd]; [|split; [assumption|discriminate]].
     destruct He as [-> Hm].
-    rewrite check_pointers_ok by (apply (inv_fits _ _ HI)). cbn [fst snd].
+    rewrite (inv_pointers_ok orig s Hso HI). cbn [fst snd].
     split; [|discriminate]. constructor; cbn; try assumption; try lia; auto; try congruence.
   - (* BorrowSh *)
     break_if; cbn [fst snd]; [split; [assumption|discriminate]|].
@@ -148,14 +193,15 @@ Proof.
     destruct (nth_error (s_val s) i) as [f|] eqn:En; [|cbn [fst snd]; split; [assumption|discriminate]].
     destruct He as [-> Hm].
     destruct (n <? 0) eqn:En0; [cbn [fst snd]; split; [assumption|discriminate]|]. zb.
-    destruct (zlen f + n >? U32_MAX); [cbn [fst snd]; split; [assumption|discriminate]|].
-    rewrite check_pointers_ok by (apply (inv_fits _ _ HI)). cbn [negb].
+    destruct ((s_lw s =? U32_W) && (zlen f + n >? U32_MAX)); [cbn [fst snd]; split; [assumption|discriminate]|].
+    rewrite (inv_pointers_ok orig s Hso HI). cbn [negb].
     destruct (n =? 0) eqn:Ez; [cbn [fst snd]; split; [assumption|discriminate]|]. zb.
     destruct (Z_le_gt_dec (h_dlen (s_hdr s) + n) (orig + MAX_INC)) as [Hfit|Hbig].
-    + rewrite (resize_ok orig) by (try assumption; pose proof (value_size_nonneg (s_val s)); unfold DISC_W in *; lia).
+    + rewrite (resize_ok orig) by (try assumption; pose proof (value_size_nonneg (s_lw s) (s_val s) Hlw); unfold DISC_W in *; lia).
       cbn [fst snd]. split; [|discriminate].
       constructor; cbn; try assumption; try lia.
-      * rewrite (value_size_set_nth _ _ _ _ En), zlen_app, zlen_zrepeat by lia. lia.
+      * apply shape_ok_set_nth; assumption.
+      * rewrite (value_size_set_nth _ _ _ _ _ En), zlen_app, zlen_zrepeat by lia. lia.
       * split; [reflexivity|assumption].
     + rewrite (resize_too_big orig) by (try assumption; lia). cbn [fst snd]. split; [assumption|discriminate].
   - (* Remove *)
@@ -166,15 +212,16 @@ Proof.
     apply orb_false_iff in Eneg as [Ea Ee]. zb.
     destruct (e <? s0) eqn:Eord; [cbn [fst snd]; split; [assumption|discriminate]|]. zb.
     destruct (zlen f <? e) eqn:Ein; [cbn [fst snd]; split; [assumption|discriminate]|]. zb.
-    rewrite check_pointers_ok by (apply (inv_fits _ _ HI)). cbn [negb].
+    rewrite (inv_pointers_ok orig s Hso HI). cbn [negb].
     destruct (e - s0 =? 0) eqn:Ez; [cbn [fst snd]; split; [assumption|discriminate]|]. zb.
-    assert (value_size (s_val s) - zlen f >= DISC_W) as Hrest.
-    { pose proof (value_size_set_nth i f [] (s_val s) En) as Hx. rewrite zlen_nil in Hx.
-      pose proof (value_size_nonneg (set_nth i [] (s_val s))). lia. }
+    assert (value_size (s_lw s) (s_val s) - zlen f >= DISC_W) as Hrest.
+    { pose proof (value_size_set_nth (s_lw s) i f [] (s_val s) En) as Hx. rewrite zlen_nil in Hx.
+      pose proof (value_size_nonneg (s_lw s) (set_nth i [] (s_val s)) Hlw). lia. }
     rewrite (resize_ok orig) by (try assumption; unfold DISC_W in *; lia).
     cbn [fst snd]. split; [|discriminate].
     constructor; cbn; try assumption; try lia.
-    + rewrite (value_size_set_nth _ _ _ _ En), zlen_app, zlen_ztake, zlen_zdrop by lia. lia.
+    + apply shape_ok_set_nth; assumption.
+    + rewrite (value_size_set_nth _ _ _ _ _ En), zlen_app, zlen_ztake, zlen_zdrop by lia. lia.
     + split; [reflexivity|assumption].
   - (* Read *)
     destruct (s_excl s); [cbn [fst snd]; split; [assumption|discriminate]|].
@@ -201,7 +248,7 @@ Lemma borrow_mut_succeeds orig s :
   Inv orig s -> h_writable (s_hdr s) = true -> s_excl s = None -> s_nsh s = 0 ->
   snd (step s OBorrowMut) = [0] /\ s_excl (fst (step s OBorrowMut)) = Some (orig + MAX_INC).
 Proof.
-  intros HI Hw Hx Hn. pose proof HI as [Hl Hd Hc He [Hs Hr] Hes]. rewrite Hx in He.
+  intros HI Hw Hx Hn. pose proof HI as [Hsh Hl Hd Hc He [Hs Hr] Hes]. rewrite Hx in He.
   cbn [step]. rewrite Hw. unfold can_borrow_data, can_borrow_mut_data. rewrite He, Hs, Hn. cbn.
   rewrite (range_is_alloc _ _ HI). split; reflexivity.
 Qed.
@@ -209,7 +256,7 @@ Qed.
 Lemma borrow_shared_succeeds orig s :
   Inv orig s -> s_excl s = None -> s_nsh s < 7 -> snd (step s OBorrowSh) = [0].
 Proof.
-  intros [Hl Hd Hc He [Hs Hr] Hes] Hx Hn. rewrite Hx in He.
+  intros [Hsh Hl Hd Hc He [Hs Hr] Hes] Hx Hn. rewrite Hx in He.
   cbn [step]. unfold can_borrow_data. rewrite He, Hs. cbn.
   destruct (s_nsh s <? 7) eqn:E; [reflexivity|zb; lia].
 Qed.
@@ -220,7 +267,7 @@ Lemma overlap_refused orig s :
   (0 < s_nsh s -> step s OBorrowMut = (s, [1; E_BORROW])) /\
   (s_nsh s = 7 -> step s OBorrowSh = (s, [1; E_BORROW])).
 Proof.
-  intros [Hl Hd Hc He [Hs Hr] Hes]. repeat split.
+  intros [Hsh Hl Hd Hc He [Hs Hr] Hes]. repeat split.
   - destruct (s_excl s) as [r|]; [|congruence]. destruct He as [_ Hm].
     cbn [step]. unfold can_borrow_data. rewrite Hm. cbn. destruct (h_writable (s_hdr s)); reflexivity.
   - destruct (s_excl s) as [r|]; [|congruence]. destruct He as [_ Hm].
@@ -239,40 +286,42 @@ Proof. intros H. cbn [step]. rewrite H. reflexivity. Qed.
 
 Lemma push_within_limit orig s r i f n b :
   size_ok orig -> Inv orig s -> s_excl s = Some r -> nth_error (s_val s) i = Some f ->
-  0 < n -> zlen f + n <= U32_MAX -> value_size (s_val s) + n <= orig + MAX_INC ->
+  0 < n -> (s_lw s = 4 -> zlen f + n <= U32_MAX) ->
+  value_size (s_lw s) (s_val s) + n <= orig + MAX_INC ->
   snd (step s (OPush i n b)) = [0] /\
   s_val (fst (step s (OPush i n b))) = set_nth i (f ++ zrepeat b n) (s_val s) /\
-  h_dlen (s_hdr (fst (step s (OPush i n b)))) = value_size (s_val s) + n.
+  h_dlen (s_hdr (fst (step s (OPush i n b)))) = value_size (s_lw s) (s_val s) + n.
 Proof.
-  intros Hso HI Hx Hn Hpos Hu Hfit. pose proof HI as [Hl Hd Hc He Hs Hes]. rewrite Hx in He. destruct He as [-> Hm].
+  intros Hso HI Hx Hn Hpos Hu Hfit. pose proof HI as [Hsh Hl Hd Hc He Hs Hes]. pose proof (shape_ok_nonneg _ _ Hsh) as Hlw. rewrite Hx in He. destruct He as [-> Hm].
   cbn [step]. rewrite Hx, Hn.
   destruct (n <? 0) eqn:E0; [zb; lia|].
-  destruct (zlen f + n >? U32_MAX) eqn:E1; [zb; lia|].
-  rewrite check_pointers_ok by (apply (inv_fits _ _ HI)). cbn [negb].
+  destruct ((s_lw s =? U32_W) && (zlen f + n >? U32_MAX)) eqn:E1; [zb; unfold U32_W in *; lia|].
+  rewrite (inv_pointers_ok orig s Hso HI). cbn [negb].
   destruct (n =? 0) eqn:E2; [zb; lia|].
-  rewrite (resize_ok orig) by (try assumption; pose proof (value_size_nonneg (s_val s)); unfold DISC_W in *; lia).
+  rewrite (resize_ok orig) by (try assumption; pose proof (value_size_nonneg (s_lw s) (s_val s) Hlw); unfold DISC_W in *; lia).
   cbn. repeat split; lia.
 Qed.
 
 Lemma push_over_limit orig s r i f n b :
   size_ok orig -> Inv orig s -> s_excl s = Some r -> nth_error (s_val s) i = Some f ->
-  0 < n -> zlen f + n <= U32_MAX -> orig + MAX_INC < value_size (s_val s) + n ->
+  0 < n -> (s_lw s = 4 -> zlen f + n <= U32_MAX) ->
+  orig + MAX_INC < value_size (s_lw s) (s_val s) + n ->
   step s (OPush i n b) = (s, [1; PE_INVALID_ACCOUNT_DATA_REALLOC]).
 Proof.
-  intros Hso HI Hx Hn Hpos Hu Hbig. pose proof HI as [Hl Hd Hc He Hs Hes]. rewrite Hx in He. destruct He as [-> Hm].
+  intros Hso HI Hx Hn Hpos Hu Hbig. pose proof HI as [Hsh Hl Hd Hc He Hs Hes]. pose proof (shape_ok_nonneg _ _ Hsh) as Hlw. rewrite Hx in He. destruct He as [-> Hm].
   cbn [step]. rewrite Hx, Hn.
   destruct (n <? 0) eqn:E0; [zb; lia|].
-  destruct (zlen f + n >? U32_MAX) eqn:E1; [zb; lia|].
-  rewrite check_pointers_ok by (apply (inv_fits _ _ HI)). cbn [negb].
+  destruct ((s_lw s =? U32_W) && (zlen f + n >? U32_MAX)) eqn:E1; [zb; unfold U32_W in *; lia|].
+  rewrite (inv_pointers_ok orig s Hso HI). cbn [negb].
   destruct (n =? 0) eqn:E2; [zb; lia|].
   rewrite (resize_too_big orig) by (try assumption; lia). reflexivity.
 Qed.
 
 Lemma read_observes_current orig s :
   Inv orig s -> (s_excl s <> None \/ 0 < s_nsh s) ->
-  step s ORead = (s, 0 :: value_size (s_val s) :: observe_value (s_val s)).
+  step s ORead = (s, 0 :: value_size (s_lw s) (s_val s) :: observe_value (s_val s)).
 Proof.
-  intros [Hl _ _ _ _ _] H. cbn [step]. rewrite Hl.
+  intros [_ Hl _ _ _ _ _] H. cbn [step]. rewrite Hl.
   destruct (s_excl s); [reflexivity|]. destruct H as [H|H]; [congruence|].
   destruct (0 <? s_nsh s) eqn:E; [reflexivity|zb; lia].
 Qed.
